@@ -1082,8 +1082,18 @@ fn cmd_image_alpha() {
         let ok = match &r { Ok(Ok((rgb, a))) => *rgb == want_rgb && match a { Some(a) => *a == want_a, None => want_a.iter().all(|v| *v == 255) }, _ => false };
         if !ok && bad.len() < 6 { bad.push(format!("{{\"width\":{w},\"height\":{h},\"alpha_pattern\":{pat},\"expected_alpha\":{:?},\"got\":{}}}", want_a, js(&format!("{:?}", r.map(|x| x.map(|(_, a)| a)).map_err(|_| "PANIC")).chars().take(300).collect::<String>()))); } else if !ok { bad.push(String::new()); }
     } } }
+    // PNG headers with extreme dimensions and a few bytes of image data: an error, never a panic
+    for (w, h, depth, ctype) in [(0x7FFF_FFFFu32, 0x7FFF_FFFFu32, 8u8, 6u8), (0xFFFF_FFFF, 0xFFFF_FFFF, 16, 6), (0xFFFF_FFFF, 2, 8, 2), (1, 0xFFFF_FFFF, 8, 0), (0xFFFF_FFFF, 0xFFFF_FFFF, 255, 6), (3, 3, 0, 2)] {
+        evaluated += 1;
+        let mut ihdr = vec![]; ihdr.extend_from_slice(&w.to_be_bytes()); ihdr.extend_from_slice(&h.to_be_bytes()); ihdr.extend_from_slice(&[depth, ctype, 0, 0, 0]);
+        let comp = { use std::io::Write; let mut e = flate2::write::ZlibEncoder::new(Vec::new(), flate2::Compression::default()); e.write_all(&[0u8, 1, 2, 3, 4, 5, 6, 7]).unwrap(); e.finish().unwrap() };
+        let mut png = vec![0x89u8, b'P', b'N', b'G', 0x0D, 0x0A, 0x1A, 0x0A];
+        png.extend(png_chunk(b"IHDR", &ihdr)); png.extend(png_chunk(b"IDAT", &comp)); png.extend(png_chunk(b"IEND", &[]));
+        let r = panic::catch_unwind(|| Image::from_png_data(png.clone()).map(|_| ()).map_err(|e| e.to_string()));
+        if r.is_err() && bad.len() < 6 { bad.push(format!("{{\"png_header\":\"{w} x {h}, bit depth {depth}, colour type {ctype}\",\"outcome\":\"PANIC\"}}")); }
+    }
     let n = bad.len(); bad.retain(|b| !b.is_empty());
-    println!("{{\"cmd\":\"image-alpha\",\"bound\":\"RGBA buffers of width 1..17 x height 1..3 x 4 alpha patterns (opaque, two binary, graded) -> image XObject + SMask decoded with byte-aligned rows\",\"evaluated\":{},\"disagreement_count\":{},\"disagreements\":[{}]}}", evaluated, n, bad.join(","));
+    println!("{{\"cmd\":\"image-alpha\",\"bound\":\"RGBA buffers of width 1..17 x height 1..3 x 4 alpha patterns (opaque, two binary, graded) -> image XObject + SMask decoded with byte-aligned rows; 6 PNG headers with extreme dimensions / bit depths\",\"evaluated\":{},\"disagreement_count\":{},\"disagreements\":[{}]}}", evaluated, n, bad.join(","));
 }
 
 fn cmd_fmt() {
